@@ -29,33 +29,39 @@ def setLines (path : Bytes) (name : String) (set : Option (List Bytes)) : List S
     ("B:" ++ Bytes.toHex path ++ ":" ++ hexS name) ::
       ks.map (fun k => "K:" ++ Bytes.toHex (path ++ slash ++ Bytes.ofString name) ++ ":05" ++ Bytes.toHex k ++ ":")
 
-def extLines (p : Bytes) (name : String) : Option Ext → List String
+/-- the stored key of fk field `f` -/
+def keyName (nm : Naming) (f : String) : String :=
+  match nm with
+  | .same => f
+  | _ => f ++ "Id"
+
+def extLines (nm : Naming) (p : Bytes) (name : String) : Option Ext → List String
   | none => []
   | some x =>
     let q := p ++ slash ++ Bytes.ofString name
     [ "B:" ++ Bytes.toHex p ++ ":" ++ hexS name,
       "K:" ++ Bytes.toHex q ++ ":" ++ hexS "tag" ++ ":" ++ typedHex x.tag,
-      "K:" ++ Bytes.toHex q ++ ":" ++ hexS "mentor" ++ ":" ++ typedHex x.m,
-      "K:" ++ Bytes.toHex q ++ ":" ++ hexS "guard" ++ ":" ++ typedHex x.g ]
+      "K:" ++ Bytes.toHex q ++ ":" ++ hexS (keyName nm "mentor") ++ ":" ++ typedHex x.m,
+      "K:" ++ Bytes.toHex q ++ ":" ++ hexS (keyName nm "guard") ++ ":" ++ typedHex x.g ]
 
-def fineLines (s : St) : List String :=
+def fineLines (nm : Naming) (s : St) : List String :=
   (s.as.keys.flatMap fun x =>
     match s.as.lookup x with
     | none => []
     | some e =>
       let p := pathA ++ slash ++ x
       [ "B:" ++ Bytes.toHex pathA ++ ":" ++ Bytes.toHex x,
-        "K:" ++ Bytes.toHex p ++ ":" ++ hexS "owner" ++ ":" ++ typedHex e.owner,
-        "K:" ++ Bytes.toHex p ++ ":" ++ hexS "boss" ++ ":" ++ typedHex e.boss,
-        "K:" ++ Bytes.toHex p ++ ":" ++ hexS "dep" ++ ":" ++ typedHex e.dep ]
+        "K:" ++ Bytes.toHex p ++ ":" ++ hexS (keyName nm "owner") ++ ":" ++ typedHex e.owner,
+        "K:" ++ Bytes.toHex p ++ ":" ++ hexS (keyName nm "boss") ++ ":" ++ typedHex e.boss,
+        "K:" ++ Bytes.toHex p ++ ":" ++ hexS (keyName nm "dep") ++ ":" ++ typedHex e.dep ]
       ++ setLines p "minions" (s.minions.lookup x)
-      ++ extLines p "ext1" e.ext1 ++ extLines p "ext2" e.ext2) ++
+      ++ extLines nm p "ext1" e.ext1 ++ extLines nm p "ext2" e.ext2) ++
   (s.bs.keys.flatMap fun b =>
     ("B:" ++ Bytes.toHex pathB ++ ":" ++ Bytes.toHex b) :: (setLines (pathB ++ slash ++ b) "things" (s.things.lookup b)
       ++ setLines (pathB ++ slash ++ b) "mentees1" (s.mentees1.lookup b)
       ++ setLines (pathB ++ slash ++ b) "mentees2" (s.mentees2.lookup b)))
 
-def fineText (s : St) : String := "\n".intercalate (sortS (fineLines s))
+def fineText (nm : Naming) (s : St) : String := "\n".intercalate (sortS (fineLines nm s))
 
 def wireList (l : List Bytes) : String := "[" ++ ",".intercalate ((sortB l).map Bytes.toWire) ++ "]"
 
@@ -91,6 +97,7 @@ def errName : Err → String
   | .nullNotAllowed => "null-not-allowed"
   | .other => "other"
   | .diverge => "diverge"
+  | .veto => "veto"
 
 def resToken : Option (Nat × Err) → String
   | none => "ok"
